@@ -116,7 +116,10 @@ def worker_e(payload):
         out["hist"]["strategy:" + im["strategy"]] = out["hist"].get("strategy:" + im["strategy"], 0) + 1
         if r["strategy"] != im["strategy"]:
             out["corr"].append({"layer": "E", "kind": "strategy", "model": r["strategy"], "impl": im["strategy"], "src": im.get("src"), "scenario": desc})
-            continue
+            # another body is not wrong by itself: the oracles below (real code only) decide on these very calls;
+            # the model's answers are not compared any further
+            r = dict(r)
+            r["res"] = list(im["res"])
         htys = {h["id"]: [ew.ty(t[2]) for t in h["types"]] for h in sc["handlers"]}
         hdesc = {h["id"]: [t[2] for t in h["types"]] for h in sc["handlers"]}
         any_combo = any(combo_with_dep(t) for ts in hdesc.values() for t in ts)
